@@ -264,3 +264,17 @@ def _():
             out.append({"name": f"C02.comparator_table:mirror_{op}", "ok": ok,
                         "detail": f"MIRRORED_COMPARATORS[ast.{op}] = {got.get(op)}; `a {op} b` is `b {mirror.get(op)} a`" + ("" if ok else " (an operator with no row must be symmetric: only Eq, NotEq are)")})
     return out
+
+
+# ---------------------------------------------------------------------------
+# the length provider behind `len(x) <op> N` narrowing: a length may be claimed known only when every member is a single element
+
+@contract("pyanalyze.implementation.len_of_value", props=P + ["C01"])
+def _(c):
+    c.param("val", "obj:Value")
+    c.fieldspec("members", "seq[pair[bool,val]]")
+    c.returns("val")
+    c.requires("not (isa(val, SequenceValue) and isa(val, KnownValue))", name="class_hierarchy.no_value_class_derives_from_both_SequenceValue_and_KnownValue")
+    c.ensures("implies(isa(val, SequenceValue) and isa(result, KnownValue), all(not truthy(m[0]) for m in val.members) and unI_(result.val) == len(val.members))",
+              name="a_sequence_value_has_a_known_length_only_when_no_member_is_unpacked_and_it_is_the_member_count")
+    c.ensures("implies(not isa(val, SequenceValue) and not isa(val, KnownValue), not isa(result, KnownValue))", name="other_values_have_no_known_length")
